@@ -224,8 +224,12 @@ class ParsedCommand(object):
         # locals so we import it manually to avoid any issues.
         import numpy as np  # noqa
         if data is not None and np.isscalar(result):
-            # Expand to the shape the data has once the view is applied
-            result = np.ones(view_shape(data.shape, view)) * result
+            # Expand to the shape the data has once the view is applied. The
+            # result of a condition is kept boolean so it can be used as a mask.
+            if isinstance(result, (bool, np.bool_)):
+                result = np.full(view_shape(data.shape, view), result)
+            else:
+                result = np.ones(view_shape(data.shape, view)) * result
 
         return result
 
